@@ -4,6 +4,7 @@ import RichModel.Lemmas.Ratio
 import RichModel.Lemmas.TableRender
 import RichModel.Lemmas.TableWidths
 import RichModel.Lemmas.CollapseKeep
+import RichModel.Lemmas.TableGeneral
 import RichModel.Lemmas.FramesRect
 import RichModel.Lemmas.FramesBars
 import RichModel.Lemmas.FramesTreeRect
@@ -316,6 +317,72 @@ theorem progress_bar_has_no_newline (env : Env) (o : ProgressOpts) (w : Int) :
 theorem tree_rect (env : Env) (root : TreeN σ) (w : Int) :
     ∀ l ∈ splitLines (treeConsole cwD env root w), lineLength cwD l = w.toNat :=
   treeConsole_rect cwD cwD_space cwD_le_two guides_ok env root w
+
+end Dep
+end RichModel.Layout
+
+namespace RichModel.Layout
+open RichModel RichModel.Frames
+namespace Dep
+
+/-! ## Table: arbitrary columns (fixed `width`, `min_width`, `max_width`, `no_wrap`) -/
+
+theorem floorSum_nonneg (t : Table) : 0 ≤ t.floorSum := by
+  unfold Table.floorSum
+  apply sum_nonneg_of_all
+  intro x hx
+  simp only [List.mem_map] at hx
+  obtain ⟨ci, _, rfl⟩ := hx
+  exact colFloor_nonneg t ci.2 ci.1
+
+/-- **The structural minimum, and the exact bound, for ARBITRARY columns** (`width_bound_general` of `Props/C07.lean`).
+Let `ws0` be the first-pass widths (every column at least one cell).  If `max_width` is at least
+`Σ ws0 over the columns that may not shrink + 1 per column that may` (`nonWrapSum + wrapCount`): `_calculate_column_widths`
+succeeds, gives every column at least one cell, and the table is at most `max_width + floorSum` wide. -/
+theorem width_bound_general (fl : Flags) (t : Table) (maxWidth : Int) (hsane : t.Sane) (hne : t.columns ≠ [])
+    (ws0 : List Int) (h0 : t.firstWidths fl maxWidth = some ws0) (hl : ws0.length = t.columns.length) (hp : ∀ w ∈ ws0, 1 ≤ w)
+    (hbudget : nonWrapSum (ws0.zip t.wrapable) + wrapCount (ws0.zip t.wrapable) ≤ maxWidth) :
+    ∃ ws, t.calcWidths fl maxWidth = some ws ∧ ws.sum ≤ maxWidth + t.floorSum ∧ ws.length = t.columns.length ∧ ∀ w ∈ ws, 1 ≤ w := by
+  have hF := floorSum_nonneg t
+  have hne0 : ws0 ≠ [] := by
+    intro h; rw [h] at hl; simp at hl
+    exact hne (List.eq_nil_of_length_eq_zero hl.symm)
+  have hge1 : ∀ (a b : List Int), (∀ p ∈ a.zip b, p.1 ≤ p.2) → a.length = b.length → (∀ w ∈ a, 1 ≤ w) → ∀ w ∈ b, 1 ≤ w := by
+    intro a b hz hlen ha w hw
+    obtain ⟨i, hi, rfl⟩ := List.getElem_of_mem hw
+    have hia : i < a.length := by omega
+    have := hz (a[i], b[i]) (by rw [List.mem_iff_getElem]; exact ⟨i, by simp; omega, by simp⟩)
+    have := ha a[i] (List.getElem_mem _)
+    simp only at *; omega
+  rw [calcWidths_ne fl t maxWidth hne, h0]
+  by_cases hover : ws0.sum > maxWidth
+  · simp only [hover, if_true]
+    obtain ⟨hpre, hrs, hrl, hr1⟩ := shrinkPre_budget t maxWidth ws0 hl hp (by omega) hbudget
+    unfold Table.shrinkWidths
+    simp only [hpre]
+    obtain ⟨hml, hm1, hms⟩ := remeasure_general t hsane _ hrl hr1
+    have hmne : t.remeasure (collapseWidths ws0 t.wrapable maxWidth) ≠ [] := by
+      intro h; rw [h] at hml; simp at hml
+      exact hne (List.eq_nil_of_length_eq_zero hml.symm)
+    by_cases hst : fl.staleTableWidth = true
+    · simp only [hst, if_true]
+      obtain ⟨r, h1, h2, h3, h4⟩ := padWidths_spec fl t _ (collapseWidths ws0 t.wrapable maxWidth).sum maxWidth hmne hm1
+      refine ⟨r, h1, ?_, by omega, hge1 _ _ h4 h2.symm hm1⟩
+      rw [h3]
+      have := padTarget_le fl t maxWidth
+      split <;> omega
+    · simp only [hst, Bool.false_eq_true, if_false]
+      obtain ⟨r, h1, h2, h3, h4⟩ := padWidths_spec fl t _ (t.remeasure (collapseWidths ws0 t.wrapable maxWidth)).sum maxWidth hmne hm1
+      refine ⟨r, h1, ?_, by omega, hge1 _ _ h4 h2.symm hm1⟩
+      rw [h3]
+      have := padTarget_le fl t maxWidth
+      split <;> omega
+  · simp only [hover, if_false]
+    obtain ⟨r, h1, h2, h3, h4⟩ := padWidths_spec fl t ws0 ws0.sum maxWidth hne0 hp
+    refine ⟨r, h1, ?_, by omega, hge1 _ _ h4 h2.symm hp⟩
+    rw [h3]
+    have := padTarget_le fl t maxWidth
+    split <;> omega
 
 end Dep
 end RichModel.Layout
